@@ -18,12 +18,12 @@ Tie to the code, on every run:
     search directions) which is NOT judged against the property but is where the layout
     rules of the model actually predict exceptions.
 """
+import hashlib
 import json
 import math
 
 from .. import common as cm
 from .. import tables_c14
-from ..tables import TablesError
 
 PID = "C14"
 PROOF_FILES = ["theories/Props/C14.v", "theories/Proofs/CollidersProofs.v"]
@@ -557,11 +557,26 @@ def run(tier, seed, replay=None):
         changed = tables_c14.generate(cm.REPO, TABLE)
         R.cov["tables_changed"] = bool(changed)
         tables_ok = True
-    except (TablesError, OSError, SyntaxError, ValueError) as e:
+    except Exception as e:  # noqa: BLE001  (TablesError, OSError, SyntaxError, or a bug of the reader: all fail closed)
         tables_ok = False
-        R.proof_broken.append(f"Gen/CollidersTables.v cannot be regenerated (source no longer has the modelled shape): {e}")
+        R.proof_broken.append(f"Gen/CollidersTables.v cannot be regenerated: the reader refuses the sources (ALL theorems of "
+                              f"Props/C14.v are about a model of different code and are not counted): "
+                              f"{type(e).__name__}: {str(e)[:900]}")
+        # The generated file is left as the last successful read wrote it.  It is used below ONLY to build the executable
+        # model for the correspondence run (a lead for the search); nothing is counted as discharged.
+        R.cov["stale_tables"] = dict(
+            file="coq/theories/Gen/CollidersTables.v",
+            sha256=hashlib.sha256(TABLE.read_bytes()).hexdigest() if TABLE.exists() else None,
+            note="not regenerated in this run; the Coq build and the model evaluations below use the tables of the last "
+                 "successful read. No theorem is counted as discharged; agreement of this stale model with the "
+                 "implementation is not evidence for the property, disagreement is a lead for the search")
+        R.notes.append("STALE Gen/CollidersTables.v: see coverage.stale_tables")
     R.check_proofs(PROOF_FILES)
-    R.cov["trusted_base"] += ["harness/tables_c14.py (ast reader of decorators / update_pose bodies / call sites)",
+    R.cov["tables_regenerated"] = tables_ok
+    if not tables_ok:
+        R.cov["discharged"] = 0
+    R.cov["trusted_base"] += ["harness/tables_c14.py + tables_pin.py (ast reader: decorators, every method body of every collider class "
+                              "and of the mesh functor against the text Model/Colliders.v transliterates, call sites, callee purity scan)",
                               "numpy view and numba dispatch rules as modelled in Model/Colliders.v"]
 
     # 2. cases: corpus, then generated
@@ -608,7 +623,9 @@ def run(tier, seed, replay=None):
     except (RuntimeError, ValueError) as e:
         R.corr_broken.append(f"model evaluation failed: {str(e)[:500]}")
     R.cov["correspondence_disagreements"] = ndiff
-    R.cov["traces_validated_against_impl"] = len(cases) - ndiff
+    R.cov["traces_validated_against_impl"] = (len(cases) - ndiff) if tables_ok else 0
+    if not tables_ok:
+        R.cov["traces_agreeing_with_stale_model"] = len(cases) - ndiff
     R.cov["model_predicted_typeerrors_confirmed"] = sum(
         1 for c, r in zip(cases, results) if "trace" in r for t in r["trace"] if t["exc"] == "TypeError") if not ndiff else None
 
